@@ -18,7 +18,7 @@ def handleBsf : Handler := fun j a => do
   let cs ← parseClusterState j "cs"
   let master ← jStr j "master"
   let topo ← parseTopo j "topo"
-  let reasonable ← jInt j "reasonable"
+  let reasonable := (← jInt j "reasonable") * lagScale
   let res ← jStr j "res"
   let m := findBestStreamFrom reasonable self cs master topo
   let mut a := a
@@ -52,7 +52,7 @@ def handleRepair : Handler := fun j a => do
   let cs ← parseClusterState j "cs"
   let topo ← parseTopo j "topo"
   let master ← jStr j "master"
-  let reasonable ← jInt j "reasonable"
+  let reasonable := (← jInt j "reasonable") * lagScale
   let inj ← j.getObjVal? "in"
   let cand ← jStr j "cand"
   let acts ← jStrList j "acts"
